@@ -673,3 +673,12 @@ func (w *World) do(op *Op) {
 		w.s.Violate("panic", panicSite(op.Panic), "audit op%03d %s: handler panicked: %s", op.ID, op.Kind, op.Panic)
 	}
 }
+
+// creatorOf returns the submission that created the stored leaf sub's certificate
+// is logged under (sub itself when it was the first, or when unknown).
+func (w *World) creatorOf(sub *Submission) *Submission {
+	if c := w.be.Creator[string(sha(sub.Leaf.DER))]; c != nil {
+		return c
+	}
+	return sub
+}
